@@ -128,7 +128,7 @@ def unit_mt(ctx):
         cpus = rng.choice([0, 0, 1, 2])
         s = rng.getrandbits(31) + 1
         args = [mode, "-t", t, "-s", s, "-y", y]
-        if mode == "once":
+        if mode in ("once", "onexit"):
             args += ["-n", P.get("n", 64)]
         elif mode == "atomic":
             args += ["-n", P.get("n", 5000)]
@@ -166,7 +166,14 @@ def unit_mt(ctx):
         if "sig" in res:
             sigs.add(res["sig"])
         # value monitors
-        if mode == "once":
+        if mode == "onexit":
+            totals["onexit_registrations"] = totals.get("onexit_registrations", 0) + res["expected"]
+            if res["ret_false"]:
+                ctx.violation("utilOnExit:returned-false", "utilOnExit returned FALSE", res)
+            if res["called"] != res["expected"]:
+                ctx.violation("utilOnExit:handlers-not-called-exactly-once", "%d handlers registered concurrently, %d calls at exit" %
+                              (res["expected"], res["called"]), res)
+        elif mode == "once":
             totals["once_callers"] += res["callers"]
             if res["final_bad"] or res["bad_count_seen"]:
                 ctx.violation("mtCallOnce:initialiser-not-exactly-once", "initialiser observed to run != 1 times", res)
@@ -219,6 +226,8 @@ def jobs(tier, scale=1.0):
         add("tsan", "rng", 13, 16, n=20, rounds=3)           # ~200 fresh processes: first-rngCreate race each
         add("tsan", "once", 3, 8, n=48)
         add("tsan", "atomic", 1, 4, n=3000)
+        add("tsan", "onexit", 2, 2, n=200)
+        add("relyield", "onexit", 2, 2, n=3000)
         add("relyield", "rng", 6, 8, n=60, rounds=6)
         add("relyield", "once", 3, 4, n=1024)
         add("relyield", "atomic", 2, 4, n=100000)
@@ -226,6 +235,8 @@ def jobs(tier, scale=1.0):
         add("tsan", "rng", 150, 32, n=25, rounds=4)          # ~4800 processes
         add("tsan", "once", 20, 16, n=64)
         add("tsan", "atomic", 4, 8, n=5000)
+        add("tsan", "onexit", 10, 4, n=400)
+        add("relyield", "onexit", 10, 4, n=6000)
         add("relyield", "rng", 60, 16, n=80, rounds=8)
         add("relyield", "once", 20, 8, n=4096)
         add("relyield", "atomic", 6, 8, n=300000)
